@@ -149,10 +149,24 @@ def asOperandList (shape : Shape) (bs : List (String × Shape)) : List SExpr →
     | some o, some os => some (o :: os)
     | _, _ => none
 
-/-- `_as_array_or_scalar` -/
+/-- the shapes of the array operands -/
+def operandShapes (bs : List (String × Shape)) : List Operand → List Shape
+  | [] => []
+  | .arr x :: r =>
+    (match lookupShape bs x with
+     | some s => s :: operandShapes bs r
+     | none => operandShapes bs r)
+  | .scalar _ :: r => operandShapes bs r
+
+/-- `_as_array_or_scalar`: the bindings broadcast to the index lambda's shape, and so do the
+    OPERANDS (a binding that is no operand takes no part in NumPy's broadcasting) -/
 def asOperands (shape : Shape) (bs : List (String × Shape)) (es : List SExpr) :
     Option (List Operand) :=
-  if bcastShapes (bs.map (·.2)) = some shape then asOperandList shape bs es else none
+  if bcastShapes (bs.map (·.2)) = some shape then
+    match asOperandList shape bs es with
+    | some os => if bcastShapes (operandShapes bs os) = some shape then some os else none
+    | none => none
+  else none
 
 /-! ### the cascade -/
 
